@@ -79,7 +79,7 @@ add("KF-solve-broadcast-a", ["C01", "C05", "C09"],
 
 add("KF-order-A-fortran-layout", ["C01", "C02", "C09"],
     "np.reshape / np.ravel / ndarray.flatten with order='A' on an argument that is Fortran-contiguous (not C-contiguous): NumPy reads the argument in Fortran order, but the VJP reshapes the (C-ordered) cotangent back with order='A' (= C order) and the JVP applies order='A' to the tangent's own layout; the derivative entries land at permuted positions. A repair needs the argument's layout inside both rules (custom JVP instead of 'same')",
-    {"prim": ["reshape", "ravel", "flatten"], "layout": "F", "kw": {"order": "str:A"}, "symptom": ["wrong_value", "not_adjoint", "modes_disagree"]},
+    {"prim": ["reshape", "ravel", "flatten"], "layout": "F", "kw": {"order": {"__re__": "str:[Aa]"}}, "symptom": ["wrong_value", "not_adjoint", "modes_disagree"]},
     case("ravel", [A(2, 3)], {"order": "A"}, layout="F"))
 
 # C06
